@@ -6,6 +6,9 @@ open Furiko Furiko.Queue Furiko.WQ
 structure QueueDS where
   sys  : Sys := {}
   uids : List String := []
+  /-- the Jobs watch is interrupted (`q.outage`): no Job event is delivered until `q.relist` or a
+  restart.  State of the driver, not of `Sys` (the proved transition system has no outage). -/
+  outage : Bool := false
   deriving Inhabited
 
 def optStr (s : String) : Option String := if s = "-" then none else some s
@@ -22,18 +25,24 @@ def qDigest (d : QueueDS) : String :=
 def callsStr (cs : List Call) : String :=
   ",".intercalate (cs.map fun c => s!"{c.verb}:{c.job}:{c.res}")
 
+partial def deliverAllJCs (s : Sys) : Sys := if s.jcEvs.isEmpty then s else deliverAllJCs (deliverJC s)
+
+partial def flushNotes (s : Sys) : Sys :=
+  if s.storeQ.isEmpty && s.ctrlQ.isEmpty then s
+  else flushNotes (notifyCtrl (notifyStore s))
+
 partial def deliverAll (s : Sys) : Sys :=
   -- mirrors SimAPI.DeliverAll: jobconfigs, then jobs (each event flushed to both handlers), repeat
-  let rec jcs (s : Sys) : Sys := if s.jcEvs.isEmpty then s else jcs (deliverJC s)
-  let rec flushNotes (s : Sys) : Sys :=
-    if s.storeQ.isEmpty && s.ctrlQ.isEmpty then s
-    else flushNotes (notifyCtrl (notifyStore s))
   let rec jobs (s : Sys) : Sys :=
     if s.jobEvs.isEmpty then s else jobs (flushNotes (deliverJob s))
-  let s1 := jobs (jcs s)
+  let s1 := jobs (deliverAllJCs s)
   if s1.jcEvs.isEmpty && s1.jobEvs.isEmpty then flushNotes s1 else deliverAll s1
 
-def queueStep (d : QueueDS) (t : List String) : QueueDS × String :=
+/-- `SimAPI.DeliverAll` while the Jobs watch is interrupted: JobConfig events and every queued
+notification, no Job event -/
+def deliverAllOutage (s : Sys) : Sys := flushNotes (deliverAllJCs s)
+
+def queueStepRaw (d : QueueDS) (t : List String) : QueueDS × String :=
   let fin (s : Sys) : QueueDS × String := ({ d with sys := s }, qDigest { d with sys := s })
   match t with
   | ["q.reset", now, uids] =>
@@ -58,11 +67,11 @@ def queueStep (d : QueueDS) (t : List String) : QueueDS × String :=
   -- a start policy (`editStartAfter` = guarded `mutateJob`)
   | ["q.sa", n, t] => fin (editStartAfter d.sys n (optInt t))
   | ["q.adv", ns] => fin { d.sys with clock := d.sys.clock + int! ns }
-  | ["q.deliver", "jobs"] => fin (deliverJob d.sys)
+  | ["q.deliver", "jobs"] => fin (if d.outage then d.sys else deliverJob d.sys)
   | ["q.deliver", "jobconfigs"] => fin (deliverJC d.sys)
   | ["q.notify", "0"] => fin (notifyStore d.sys)
   | ["q.notify", "1"] => fin (notifyCtrl d.sys)
-  | ["q.flush"] => fin (deliverAll d.sys)
+  | ["q.flush"] => fin (if d.outage then deliverAllOutage d.sys else deliverAll d.sys)
   | ["q.resync"] => fin (resync d.sys)   -- notifications are queued; the Go side runs them at once
   | ["q.markdel", n] => fin (mutateJob d.sys n (fun j => j))   -- deletionTimestamp set: nothing the queue controller reads
   | ["q.work", "cfg", k] =>
@@ -75,7 +84,31 @@ def queueStep (d : QueueDS) (t : List String) : QueueDS × String :=
     (d', s!"{res} calls={callsStr s.calls} {qDigest d'}")
   | ["q.fault", f] => fin { d.sys with faults := d.sys.faults ++ [f] }
   | ["q.clearfaults"] => fin { d.sys with faults := [] }
-  | ["q.restart"] => fin (restart d.sys)
+  | ["q.restart"] =>
+    let d' := { d with sys := restart d.sys, outage := false }
+    (d', qDigest d')
+  -- process start with a stale initial LIST (old cache + the first kj / kc undelivered events; the
+  -- rest is replayed by the watch) and w Job events delivered inside `Store.Recover`, between the
+  -- handler registration and the lister read.  Not an `Act` of Proofs/QueueEnv (outside
+  -- E-FreshInitialList / E-QuiescentRecover unless kj = all and w = 0).
+  | ["q.restart", kj, kc, w] =>
+    let d' := { d with sys := restartStaleWin d.sys (nat! kj) (nat! kc) (nat! w), outage := false }
+    (d', qDigest d')
+  -- the Jobs watch is interrupted / the informer relists (pairs cached and listed objects by name)
+  | ["q.outage"] => let d' := { d with outage := true }; (d', qDigest d')
+  | ["q.relist"] =>
+    let d' := { d with sys := relist d.sys, outage := false }
+    (d', qDigest d')
   | _ => (d, "bad-op")
+
+/-- Listings of the Go side (`sim.sortedIndexer`, `SimAPI.Keys`) are ordered by key.  Job names are
+created in increasing order, so the model's append-at-the-end lists are ordered as well — except
+when a name is taken again, which the engine only does inside a watch outage (`q.outage`).  The
+driver therefore keeps the authoritative list and the cache ordered by name after every operation:
+a permutation (the identity unless a name was reused); only the order of resync / relist
+notifications depends on it. -/
+def queueStep (d : QueueDS) (t : List String) : QueueDS × String :=
+  let (d', out) := queueStepRaw d t
+  ({ d' with sys := { d'.sys with jobs := sortByName d'.sys.jobs, jobCache := sortByName d'.sys.jobCache } }, out)
 
 end Furiko.Driver
